@@ -39,6 +39,12 @@ def run(ctx):
                                 res=int(rng.choice([65536, 262144])) if big else int(rng.choice([256, 1024, 4096, 1000, 1023])))
         else:
             spec = zoo.float_spec(rng, n=int(rng.integers(5, 40)), d=int(rng.integers(2, 5)))
+            if rng.random() < 0.5:
+                # NaN / infinite events recorded beside negative ones: the edges are a function of the channel's range (and,
+                # for logicle, of documented data-derived parameters) and must stay n+1 finite increasing values
+                ev = spec['events']
+                for j_ in range(len(ev[0])):
+                    ev[int(rng.integers(len(ev)))][j_] = [float('nan'), float('nan'), float('inf')][int(rng.integers(3))]
         raw_bytes = None
         state = str(rng.choice(['raw', 'rfi', 'mef'])) if isint else 'raw'
 
